@@ -78,6 +78,8 @@ pub struct RunState {
     pub plan: HashMap<String, Vec<Behav>>,
     pub invocations: HashMap<String, usize>,
     pub world_plan: Vec<WorldBehav>,
+    /// Worlds that attached a hold-only worker to their scenario span.
+    pub scenario_span_holds: u64,
     pub world_calls: usize,
     pub world_gates: u8,
     pub next_world_id: u64,
@@ -313,8 +315,13 @@ fn defer_logs(idx: usize, n: u8) {
 fn defer_logs(_: usize, _: u8) {}
 
 /// Emits the oldest postponed logs inside their span, then drops the span clone.
-pub fn fire_deferred() -> Option<usize> {
-    let d = with_rs(|rs| if rs.deferred.is_empty() { None } else { Some(rs.deferred.remove(0)) })?;
+/// `idle`: nothing else can make progress - then also a worker that only *holds* a span (logs
+/// nothing) lets go; otherwise only logging workers are candidates.
+pub fn fire_deferred(idle: bool) -> Option<usize> {
+    let d = with_rs(|rs| {
+        let pos = if idle { (!rs.deferred.is_empty()).then_some(0) } else { rs.deferred.iter().position(|d| d.n > 0) };
+        pos.map(|p| rs.deferred.remove(p))
+    })?;
     #[cfg(feature = "tracing")]
     {
         let entered = d.span.enter();
@@ -368,6 +375,24 @@ impl World for TW {
             };
             (wb, rs.world_gates)
         });
+        // every other World keeps the span it is created in open for a while (a detached worker owning
+        // a clone of it and logging nothing): under a before hook that is the *scenario* span itself
+        #[cfg(feature = "tracing")]
+        if with_rs(|rs| rs.emit_logs && rs.world_calls % 2 == 1) {
+            // a direct child of the SCENARIO span (the parent of the hook / step span World::new runs
+            // in), the way a background worker attached to the whole scenario would hold one
+            use tracing_subscriber::registry::LookupSpan as _;
+            let scenario_span = tracing::dispatcher::get_default(|d| {
+                let registry = d.downcast_ref::<tracing_subscriber::Registry>()?;
+                let here = tracing::Span::current().id()?;
+                registry.span(&here)?.parent().map(|p| p.id())
+            });
+            if let Some(parent) = scenario_span {
+                let span = tracing::info_span!(parent: parent, "scenario worker");
+                with_rs(|rs| rs.deferred.push(Deferred { span, owner: idx, n: 0 }));
+                with_rs(|rs| rs.scenario_span_holds += 1);
+            }
+        }
         if let WorldBehav::EagerPanic(kind) = wb {
             let token = new_token();
             cb_exit(idx, CbOutcome::Panic(kind, token));
